@@ -298,6 +298,39 @@ struct Mem {
             ok("array_constructor", true);
             if (!good) fail("array_constructor", key(23, 0, 0, pat, 0), desc("array ctor", 0, 0, pat, "-"));
             Lane<0>::go(this, pat);
+            // the array constructor and to_array with the std::array at every element-aligned offset of a 64-byte line: alignof(std::array<S,W>) is
+            // alignof(S), an aligned vector load from it faults (seed C08-d); canaries around the array written by to_array
+            Arena& A = arena();
+            for (unsigned off = 0; off < 64; off += sizeof(S)) {
+                typedef std::array<S, W> Arr;
+                A.fill();
+                Arr* ap = reinterpret_cast<Arr*>(A.page() + 512 + off);
+                for (unsigned i = 0; i < W; ++i) { S x = payload(i, pat); std::memcpy(reinterpret_cast<unsigned char*>(ap) + i * sizeof(S), &x, sizeof(S)); }
+                struct FromArr { const Arr* a; V out; void operator()() { out = V(*a); } } fa;
+                fa.a = ap;
+                int sig = guarded(fa);
+                ok("array_constructor", off % alignof(V) != 0);
+                if (sig) fail("array_constructor", key(24, 0, off, pat, 0), desc("signal constructing from a std::array at", 0, off, pat, "element-aligned offset"));
+                else {
+                    S l2[W];
+                    to_lanes(fa.out, l2);
+                    bool g2 = true;
+                    for (unsigned i = 0; i < W; ++i) g2 = g2 && bits_of(l2[i]) == bits_of(payload(i, pat));
+                    if (!g2) fail("array_constructor", key(24, 1, off, pat, 0), desc("array ctor wrong lanes", 0, off, pat, "element-aligned offset"));
+                }
+                A.fill();
+                struct ToArr { Arr* a; V v; void operator()() { *a = avel::to_array(v); } } ta;
+                ta.a = ap; ta.v = payload_vec(pat);
+                sig = guarded(ta);
+                ok("to_array", off % alignof(V) != 0);
+                if (sig) fail("to_array", key(25, 0, off, pat, 0), desc("signal in to_array into a std::array at", 0, off, pat, "element-aligned offset"));
+                else {
+                    bool g3 = true;
+                    for (unsigned i = 0; i < W; ++i) { S x = payload(i, pat); g3 = g3 && std::memcmp(reinterpret_cast<unsigned char*>(ap) + i * sizeof(S), &x, sizeof(S)) == 0; }
+                    std::size_t stray = A.stray(reinterpret_cast<unsigned char*>(ap), reinterpret_cast<unsigned char*>(ap) + sizeof(Arr));
+                    if (!g3 || stray) fail("to_array", key(25, 1, off, pat, 0), desc(g3 ? "bytes outside the array changed" : "to_array wrong elements", 0, off, pat, "element-aligned offset"));
+                }
+            }
         }
     }
 #else
